@@ -240,6 +240,31 @@ pub fn run(prop: &str, tier: &str, replay: Option<&str>) -> i32 {
             rep.add(sec);
         }
     }
+    // E. oracle cross-validation: the reference decoder's view of each artefact must agree with
+    // x509-parser's and OpenSSL's; a disagreement between ORACLES is a machinery error, never a verdict
+    if prop == "C02" {
+        let ctxs = contexts(false);
+        let sec = Section::new("oracle-cross-validation", "for every state of levels k<=1 and of the lattice (self-signed and one issuer-signed context): serial, names (attribute OIDs, string tags, value bytes, RDN structure), validity instants, SPKI bytes and the list of extension OIDs with criticality as decoded by refmodel agree with x509-parser; OpenSSL parses the certificate and agrees on serial and validity").with_deadline(cap);
+        let two = [&ctxs[0], &ctxs[1]];
+        for ctx in two {
+            let f = |st: &CertState, _: &Choice| -> Outcome {
+                let mut out = Outcome::default();
+                let ev = eval_cert(st, ctx);
+                out.transitions = ev.transitions;
+                if let Some(der) = &ev.der {
+                    out.digest = fnv(der);
+                    if let Some(abs) = refmodel::x509::decode_cert(der).value {
+                        out.machinery.extend(cross_validate(der, &abs, st));
+                    }
+                }
+                out
+            };
+            run::levels(&sec, &space, 1, &f);
+            let rep_fn = lattice_rep(&space);
+            run::lattice(&sec, &space, &rep_fn, &f);
+        }
+        rep.add(sec);
+    }
     if prop == "C04" {
         c04_extras(&mut rep, &judge, thorough);
         super::c07::add_sections(&mut rep, prop, thorough, false);
@@ -397,4 +422,66 @@ fn eval_with_issuer(st: &CertState, subject: &Ctx, issuer_ctx: &Ctx) -> CertEval
         }
     }
     ev
+}
+
+/// Compare the reference decoder's abstract value with x509-parser's and OpenSSL's reading of the same bytes.
+fn cross_validate(der: &[u8], abs: &refmodel::x509::AbsCert, st: &CertState) -> Vec<String> {
+    use refmodel::x509::{int_magnitude, strip_zeros};
+    let mut m = Vec::new();
+    match x509_parser::parse_x509_certificate(der) {
+        Err(e) => {
+            // a custom extension colliding with a standard OID may legitimately upset another decoder
+            if st.custom_exts.iter().all(|c| c.oid.first() != Some(&2)) {
+                m.push(format!("x509-parser cannot parse what refmodel decodes: {:?}", e));
+            }
+        }
+        Ok((rest, x)) => {
+            if !rest.is_empty() {
+                m.push("x509-parser sees trailing bytes".into());
+            }
+            let t = &x.tbs_certificate;
+            if Some(strip_zeros(&t.serial.to_bytes_be())) != int_magnitude(&abs.serial) {
+                m.push(format!("serial: x509-parser {:?} refmodel {:02x?}", t.serial, abs.serial));
+            }
+            for (what, xn, rn) in [("subject", &t.subject, &abs.subject), ("issuer", &t.issuer, &abs.issuer)] {
+                let xv: Vec<Vec<(Vec<u8>, u32, Vec<u8>)>> = xn.iter().map(|rdn| rdn.iter().map(|a| (a.attr_type().as_bytes().to_vec(), a.attr_value().header.tag().0, a.attr_value().data.to_vec())).collect()).collect();
+                let rv: Vec<Vec<(Vec<u8>, u32, Vec<u8>)>> = rn.iter().map(|rdn| rdn.iter().map(|a| (refmodel::der::oid(&a.oid)[2..].to_vec(), a.tag, a.value.clone())).collect()).collect();
+                if xv != rv {
+                    m.push(format!("{}: x509-parser {:?} refmodel {:?}", what, xv, rv));
+                }
+            }
+            if Some(t.validity.not_before.timestamp()) != abs.not_before.unix || Some(t.validity.not_after.timestamp()) != abs.not_after.unix {
+                m.push(format!("validity: x509-parser {} .. {} refmodel {:?} .. {:?}", t.validity.not_before.timestamp(), t.validity.not_after.timestamp(), abs.not_before.unix, abs.not_after.unix));
+            }
+            if t.subject_pki.raw != abs.spki_raw.as_slice() {
+                m.push("SPKI bytes differ between x509-parser and refmodel".into());
+            }
+            // compared on the OID content octets (x509-parser's textual rendering of 2.x arcs with x >= 40 is off)
+            let xe: Vec<(Vec<u8>, bool)> = t.extensions().iter().map(|e| (e.oid.as_bytes().to_vec(), e.critical)).collect();
+            let re: Vec<(Vec<u8>, bool)> = abs.extensions.iter().flatten().map(|e| (refmodel::der::oid(&e.oid)[2..].to_vec(), e.critical)).collect();
+            if xe != re {
+                m.push(format!("extensions: x509-parser {:?} refmodel {:?}", xe, re));
+            }
+        }
+    }
+    match openssl::x509::X509::from_der(der) {
+        Err(e) => m.push(format!("OpenSSL cannot parse what refmodel decodes: {}", e)),
+        Ok(x) => {
+            if let Ok(bn) = x.serial_number().to_bn() {
+                if Some(bn.to_vec()) != int_magnitude(&abs.serial) && !(bn.is_negative()) {
+                    m.push(format!("serial: OpenSSL {:02x?} refmodel {:02x?}", bn.to_vec(), abs.serial));
+                }
+            }
+            let epoch = openssl::asn1::Asn1Time::from_unix(0).unwrap();
+            for (what, t, r) in [("notBefore", x.not_before(), abs.not_before.unix), ("notAfter", x.not_after(), abs.not_after.unix)] {
+                if let (Ok(d), Some(r)) = (epoch.diff(t), r) {
+                    let secs = d.days as i64 * 86400 + d.secs as i64;
+                    if secs != r {
+                        m.push(format!("{}: OpenSSL {} refmodel {}", what, secs, r));
+                    }
+                }
+            }
+        }
+    }
+    m
 }
